@@ -11,7 +11,7 @@ BOUNDS = dict(t0 = 'every instant of 1900-2300 (midnight for day/business/month 
               span = 'quick: |t1-t0| <= 21 days for day-based bumps (thorough 45), <= 36 hours for hour bumps, <= 5 steps for minute/second bumps, '
                      '<= 4 steps for week bumps and <= 2 for month/quarter/year bumps (thorough 6); either direction; the list length is decided per path by solver forks',
               bump = 'ints n in [-7,7]; timedelta(n days) and intraday timedeltas; single period strings with n in {-5..5} (month-based: day of month <= 28); '
-                     'business-day bumps k in {-5..5}; compound strings from a fixed list of 11 (spans up to 8 days / hours, 70 days for the month-based ones; thorough 30 / 130)')
+                     'business-day bumps k in {-5..5}; sub-second timedeltas (100 / 300 / 20 / 1 ms, <= 12 steps); compound strings from a fixed list of 13 incl. two of mixed sign (spans up to 8 days / hours, 70 days for the month-based ones; thorough 30 / 130)')
 OUTSIDE = ['what the real dateutil.rrule does beyond the validated contract (monthly recurrences from day > 28, byweekday other than a weekday filter)',
            'spans longer than the bounds above', 'timezone-aware endpoints', 't0/t1 given as bumps relative to today']
 ASSUMPTIONS = ['dateutil.rrule is replaced by a contract stub (vf/symx/rrule_stub.py) validated against the real rrule on a grid at the start of every run',
@@ -93,6 +93,22 @@ def h_timedelta(c):
     res = R.drange(t0, t1, bump)
     check_list(c, res, t0, t1, lambda t: t + bump)
 
+def h_timedelta_ms(c):
+    """sub-second timedelta bumps (the statement's intraday timedeltas): every step count up to 12 has a cover witness that is replayed on the real code, where
+    the arithmetic is binary floating point / integer microseconds rather than the exact reals of the symbolic run"""
+    R = _R(); ms = c.pick('ms', [100, 300, 20, 1])
+    t0 = c.datetime('t0', us_step = 10**6); span = c.int('span', -12, 12)
+    t1 = t0 + td(c, microseconds = span * ms * 1000)
+    for k in range(1, 13): c.cover('exactly-%d-steps' % k, span == k)
+    bump = td(c, milliseconds = ms)
+    if span == 0:
+        same_lists(c, 'equal-endpoints-give-[t0]', R.drange(t0, t1, bump), [t0]); return
+    if span < 0:
+        expect_valueerror(c, 'bump-pointing-away-raises-ValueError', lambda: R.drange(t0, t1, bump)); return
+    res = R.drange(t0, t1, bump)
+    check_list(c, res, t0, t1, lambda t: t + bump)
+    c.check('endpoint-that-is-a-whole-number-of-steps-away-is-the-last-element', len(res) == span + 1)
+
 UNIT_US = dict(d = US_DAY, w = 7 * US_DAY, h = 3600 * 10**6, n = 60 * 10**6, s = 10**6)
 def h_period(unit, maxsteps):
     monthly = unit in 'mqy'
@@ -141,7 +157,8 @@ def h_bday(maxspan):
         c.check('steps-of-k-weekdays', X.And([wdcount(X.ordinal(b)) - wdcount(X.ordinal(a)) == k for a, b in zip(res[:-1], res[1:])] + [True]))
     return h
 
-COMPOUNDS = ['1w1d', '1d1b', '1b1d', '1m1d', '2d-1d', '-1w-1b', '1y-1m', '-1m-1d', '1b1b', '1h30n', '-1d-12h']
+COMPOUNDS = ['1w1d', '1d1b', '1b1d', '1m1d', '2d-1d', '-1w-1b', '1y-1m', '-1m-1d', '1b1b', '1h30n', '-1d-12h', '-1d1w', '1d-1w']
+NET_FORWARD = {'-1d1w': True, '1d-1w': False}          # mixed-sign compounds whose first part points the other way than the whole bump
 def h_compound(bump, maxspan):
     def h(c):
         R = _R(); D = _Dm()
@@ -150,7 +167,7 @@ def h_compound(bump, maxspan):
         if any(u in bump for u in 'mqy'): c.assume(t0.day <= 28)
         span = c.int('span', -maxspan, maxspan)
         t1 = t0 + (td(c, days = span) if mid else td(c, hours = span))
-        fwd = not bump.startswith('-')
+        fwd = NET_FORWARD.get(bump, not bump.startswith('-'))
         c.cover('several', X.If(fwd, span > 3, span < -3))
         if span == 0:
             same_lists(c, 'equal-endpoints-give-[t0]', R.drange(t0, t1, bump), [t0]); return
@@ -176,6 +193,8 @@ def obligations(tier):
         obs.append(Ob('int.%d' % n, h_int(day), setup = S, pins = {'n': i}, budget_s = 300 if q else 1200, fuel = 6000, desc = 'drange(t0,t1,%d) == drange(timedelta) == drange("%dd"), any span <= %d days' % (n, n, day)))
     for i, hrs in enumerate([-25, -6, -1, 1, 5, 24, 36]):
         obs.append(Ob('timedelta.%dh' % hrs, h_timedelta, setup = S, pins = {'hours': i}, budget_s = 300, fuel = 6000, desc = 'intraday timedelta bumps of %d hours (+0/30 min)' % hrs))
+    for i, ms in enumerate([100, 300, 20, 1]):
+        obs.append(Ob('timedelta.%dms' % ms, h_timedelta_ms, setup = S, pins = {'ms': i}, budget_s = 300, fuel = 6000, desc = 'sub-second timedelta bumps of %d ms, 0..12 steps, each step count replayed on the real code' % ms))
     for u in 'dwhnsmqy':
         steps = (day if u == 'd' else ((2 if u in 'mqy' else 4) if q else 6)) if u in 'dwmqy' else ((12 if q else 36) if u == 'h' else 6)
         for i, n in enumerate([-5, -2, -1, 1, 2, 3]):
